@@ -16,7 +16,7 @@ func init() {
 		ID:  "C31",
 		Run: runC31,
 		Explanation: "Static decision of the structure that makes the tiered chunk cache transparent: (1) PROV-key: every tier is keyed by the whole file id — each component of the parsed id (volume id, needle key, cookie) flows into the key handed to a disk tier, as the memory tier's string key does; (2) ABS-tiers: for every ordering class of a chunk's size against the two tier limits, the tier doSetChunk stores it in is among the tiers doGetChunk / doGetChunkSlice probe for every requested minimum size up to that size; " +
-			"(3) GUARD-hit: a tier's answer is returned only when it is at least as long as the requested minimum, and the on-disk volume returns bytes only when it read exactly the recorded size at the recorded offset; a stored chunk is indexed only after it was written completely, at the offset it was written to and with its length. Rotation, eviction and restart histories are not decided.",
+			"(3) GUARD-hit: a tier's answer is returned only when it is at least as long as the requested minimum, and the on-disk volume returns bytes only when it read exactly the recorded size at the recorded offset; a stored chunk is indexed only after it was written completely, at the offset it was written to and with its length. Rotation, eviction and restart histories are not decided. Also decided: each advance of the recorded data-file size is preceded by as many writes; a reset empties .dat, .idx and the derived .ldb after closing the volume.",
 		Assumptions: []string{"needle keys of different volumes may coincide (the property quantifies over file ids that share a key)"},
 		Trusted:     baseTrusted,
 	})
